@@ -1,5 +1,6 @@
 import Ts.Kahn
 import Ts.KahnComplete
+import Ts.Refine
 
 /-! # C15 — property theorems (statements only; proofs live in the family libraries) -/
 
@@ -53,6 +54,32 @@ theorem toposort_success_iff :
     (hV : ∀ e ∈ E, e.1 ∈ V ∧ e.2 ∈ V),
     (∃ L, toposort V E = some (L, true)) ↔ Ranked E :=
   @Kahn.toposort_success_iff
+end
+
+section
+open Kahn Ts
+
+/-- the concrete model compared with `toposort.Graph.Toposort` on every run (adjacency lists with insertion ranks,
+in-degree counters, `unsafeRemoveEdge`) — soundness -/
+theorem G_toposort_sound :
+    ∀ (g : Ts.G), Ts.WFG g → Ts.WellRanked g g.edges [] → ∀ (L : List Nat), g.toposort = some (L, true) →
+    L.Nodup ∧ (∀ x, x ∈ L ↔ x ∈ g.nodes) ∧ ∀ e ∈ g.edges, Before L e.1 e.2 :=
+  @Ts.G.toposort_sound
+
+/-- … completeness: an acyclic well-formed graph is sorted successfully -/
+theorem G_toposort_complete :
+    ∀ (g : Ts.G), Ts.WFG g → Ts.WellRanked g g.edges [] → Ranked g.edges → ∃ L, g.toposort = some (L, true) :=
+  @Ts.G.toposort_complete
+
+/-- … and on a graph with a cycle the sort terminates and reports failure -/
+theorem G_toposort_cyclic :
+    ∀ (g : Ts.G), Ts.WFG g → Ts.WellRanked g g.edges [] → ¬ Ranked g.edges → ∃ L, g.toposort = some (L, false) :=
+  @Ts.G.toposort_cyclic
+
+/-- the premises are decidable; the correspondence evaluates `wfCheck` on every well-formed build of the probe -/
+theorem wfCheck_sound :
+    ∀ (g : Ts.G), Ts.wfCheck g = true → Ts.WFG g ∧ Ts.WellRanked g g.edges [] :=
+  @Ts.wfCheck_sound
 end
 
 end Props.C15
